@@ -1717,6 +1717,7 @@ class QueryBuilder(Selectable, Term):  # type:ignore[misc]
         otherwise the entire field will be rendered as SQL.
         """
         clauses = []
+        ctx = ctx.copy(subquery=True)
         selected_aliases = {s.alias for s in self._selects}
         for field in self._groupbys:
             if (alias := field.alias) and alias in selected_aliases:
@@ -1752,6 +1753,7 @@ class QueryBuilder(Selectable, Term):  # type:ignore[misc]
         the alias, otherwise the field will be rendered as SQL.
         """
         clauses = []
+        ctx = ctx.copy(subquery=True)
         selected_aliases = {s.alias for s in self._selects}
         for field, directionality in self._orderbys:
             term = (
@@ -1772,7 +1774,7 @@ class QueryBuilder(Selectable, Term):  # type:ignore[misc]
         return " WITH ROLLUP"
 
     def _having_sql(self, ctx: SqlContext) -> str:
-        having = self._havings.get_sql(ctx)  # type:ignore[union-attr]
+        having = self._havings.get_sql(ctx.copy(subquery=True))  # type:ignore[union-attr]
         return f" HAVING {having}"
 
     def _offset_sql(self, ctx: SqlContext) -> str:
@@ -1787,11 +1789,12 @@ class QueryBuilder(Selectable, Term):  # type:ignore[misc]
 
     def _set_sql(self, ctx: SqlContext) -> str:
         field_ctx = ctx.copy(with_namespace=False)
+        value_ctx = ctx.copy(subquery=True)
         return " SET {set}".format(
             set=",".join(
                 "{field}={value}".format(
                     field=field.get_sql(field_ctx),
-                    value=value.get_sql(ctx),
+                    value=value.get_sql(value_ctx),
                 )
                 for field, value in self._updates
             )
